@@ -10,11 +10,11 @@ import (
 
 // C08 — an object locked through the engine stays retrievable until the lock expires (broadcast / rollback structure).
 func init() {
-	register(&Check{ID: "C08", Level: "other", Pkgs: []string{"./pkg/local_object_storage/engine"}, Run: runC08})
+	register(&Check{ID: "C08", Level: "other", Pkgs: []string{"./pkg/local_object_storage/engine", "./pkg/local_object_storage/metabase"}, Run: runC08})
 }
 
 func runC08(p *core.Prog, r *core.Report) {
-	r.Explain = "Decides the engine-level structure that makes a rejected tombstone harmless, on all CFG paths of StorageEngine.broadcastObject (used for TOMBSTONE, LOCK and LINK): (R1) a shard is recorded as having accepted the object only after putToShard returned nil or 'already exists'; (R2) the broadcast is declared fatal exactly for the verdicts {lock of a non-regular object, object is locked, already removed}, and a fatal verdict ends the loop; (R3) after a fatal verdict the object is deleted again from EVERY shard recorded as having accepted it (the rollback loop ranges over the whole list and addresses the broadcast object itself), and (R3) success is reported only when the broadcast was not fatal and at least one shard accepted. (R5, shared with C19) evacuation accounts for every listed object whatever its type, so a lock stored only on the drained shard moves with the object it protects. The per-shard protection (a tombstone is refused while a live lock exists; GC and expiry respect locks) is decided by C07. Observation, not a rule and not a finding for this property: the rollback removes the tombstone object but not the garbage marks it had written for its targets on that shard — confirmed with a scratch scenario (lock missed one shard, tombstone accepted there, rejected elsewhere, rolled back: the shard keeps 'marked as garbage' for the locked object); in every history tried the locked object stayed retrievable through the engine, so no violation of this property could be shown and nothing is recorded. Not covered: shard visiting orders, mode flips, evacuation, concurrent broadcasts."
+	r.Explain = "Decides the engine-level structure that makes a rejected tombstone harmless, on all CFG paths of StorageEngine.broadcastObject (used for TOMBSTONE, LOCK and LINK): (R1) a shard is recorded as having accepted the object only after putToShard returned nil or 'already exists'; (R2) the broadcast is declared fatal exactly for the verdicts {lock of a non-regular object, object is locked, already removed}, and a fatal verdict ends the loop; (R3) after a fatal verdict the object is deleted again from EVERY shard recorded as having accepted it (the rollback loop ranges over the whole list and addresses the broadcast object itself), and (R3) success is reported only when the broadcast was not fatal and at least one shard accepted. (R4, shared with C19) evacuation accounts for every listed object whatever its type, so a lock stored only on the drained shard moves with the object it protects. (R5, shared with C07/C01) the per-shard lock lookup ends its search only at a live lock, so with several locks an expired one cannot hide a live one from the tombstone verdict. (R6, shared with C07) the engine-wide lock check used by expired objects handling leaves its walk over the shards early only with 'locked', so a shard that cannot answer does not hide a lock known to another shard. The rest of the per-shard protection (a tombstone is refused while a live lock exists; GC and expiry respect locks) is decided by C07. Observation, not a rule and not a finding for this property: the rollback removes the tombstone object but not the garbage marks it had written for its targets on that shard — confirmed with a scratch scenario (lock missed one shard, tombstone accepted there, rejected elsewhere, rolled back: the shard keeps 'marked as garbage' for the locked object); in every history tried the locked object stayed retrievable through the engine, so no violation of this property could be shown and nothing is recorded. Not covered: shard visiting orders, mode flips, evacuation, concurrent broadcasts."
 	bo := p.Func(engT + "broadcastObject")
 	if bo == nil {
 		r.Fatalf("C08: broadcastObject not found")
@@ -180,4 +180,16 @@ func runC08(p *core.Prog, r *core.Report) {
 	_ = nF
 	// R4: evacuation moves every listed object (shared with C19.R2): a lock that lives only on the drained shard must move with its object
 	evacuationAccountsEveryObject(p, r, "C08.R4")
+	// R5: the per-shard answer the broadcast relies on looks at every lock (shared with C07.R5 / C01.R5)
+	r5 := r.Rule("C08.R5", "the per-shard lock lookup every broadcast verdict rests on ends its search only at a LIVE lock: an expired lock that sorts first does not hide a later live one", 4)
+	tLock, ok1 := p.ConstInt("github.com/nspcc-dev/neofs-sdk-go/object.TypeLock")
+	stAvail, ok2 := p.ConstInt(mb + "statusAvailable")
+	if !ok1 || !ok2 {
+		r.Fatalf("C08.R5: constants not found")
+		return
+	}
+	lockLookupRule(p, r, r5, tLock, stAvail)
+	// R6: the engine-wide lock check asks every shard (shared with C07.R6)
+	r6 := r.Rule("C08.R6", "StorageEngine.isLocked says 'no lock' only after every shard was asked: a shard that cannot answer (mode change, error) does not end the walk", 1)
+	lockCheckAsksEveryShard(p, r, r6)
 }
